@@ -190,6 +190,11 @@ def family_f6():
     add([I.for_(I.name("i"), k(), [I.with_(k(), "w", [I.if_(k(), [I.brk()]), I.assign(I.name("a"), I.site(k()))])]),
          I.assign(I.name("z"), I.site(k()))], "for_with_break")
     k = K()
+    add([I.assign(I.name("a"), I.site(k())),
+         I.with_(k(), "w", [I.raise_(k()), I.ret(I.site(k()))], sup=True)], "trailing_with_swallows")
+    k = K()
+    add([I.if_(k(), [I.with_(k(), "", [I.raise_(k()), I.ret(I.read("x"))], sup=True)], [I.ret(I.site(k()))])], "if_with_swallows_else_return")
+    k = K()
     add([I.try_([I.assign(I.name("a"), I.site(k())), I.ret(I.read("a"))], final=[I.if_(k(), [I.ret(I.site(k()))]), I.assign(I.name("b"), I.site(k()))])],
         "return_superseded_by_finally")
     k = K()
